@@ -261,11 +261,13 @@ class Check(object):
             'violations': len(self.violations),
             'known_findings_hit': sorted(self.known_hit),
         }
-        os.makedirs(os.path.join(VERIF, 'evidence'), exist_ok=True)
-        tmp = os.path.join(VERIF, 'evidence', '.%s.json.tmp' % self.prop)
+        # runs against a scratch tree (seeded breakages) must not overwrite the evidence of /repo: VERIF_OUT redirects
+        outdir = os.environ.get('VERIF_OUT') or VERIF
+        os.makedirs(os.path.join(outdir, 'evidence'), exist_ok=True)
+        tmp = os.path.join(outdir, 'evidence', '.%s.json.tmp' % self.prop)
         with open(tmp, 'w') as fd:
             json.dump(ev, fd, indent=1, sort_keys=True, default=str)
-        os.replace(tmp, os.path.join(VERIF, 'evidence', '%s.json' % self.prop))
+        os.replace(tmp, os.path.join(outdir, 'evidence', '%s.json' % self.prop))
         for fid, what in sorted(self.known_hit.items()):
             print('KNOWN-FINDING: property=%s %s [%s]' % (self.prop, what, fid))
         if self.drift:
@@ -273,7 +275,7 @@ class Check(object):
         for n in self.notes:
             print('NOTE %s' % n)
         rc = 0
-        rdir = os.path.join(VERIF, 'replays', self.prop)
+        rdir = os.path.join(outdir, 'replays', self.prop)
         if os.path.isdir(rdir) and not os.environ.get('VERIF_KEEP_REPLAYS'):
             # replay files of an earlier run with the same tier and seed are stale
             for f in os.listdir(rdir):
